@@ -88,6 +88,7 @@ type vfC11Vector struct {
 	PGrp   int          `json:"pgrp"` // 1-based index of the group whose pick panicked (0: none)
 	Il     []vfC11Il    `json:"il"`
 	PIl    int          `json:"pil"` // 1-based index of the interleaved group that panicked (0: none)
+	Xov    int          `json:"xov"` // executor runs: calls that entered NextHost while another call was inside
 }
 
 // vfC11Query is a minimal ExecutableQuery: only the routing key and the keyspace matter
@@ -120,6 +121,12 @@ type vfC11Env struct {
 	policy HostSelectionPolicy
 	ta     *tokenAwareHostPolicy
 	ksOn   atomic.Bool
+
+	// gate inside the keyspace-metadata callback: when armed, the next call of the callback parks
+	// (signals parked, waits for release) - used to overlap two update calls
+	gateArmed atomic.Bool
+	parked    chan struct{}
+	release   chan struct{}
 }
 
 func vfC11New(w *vfC11World) *vfC11Env {
@@ -155,6 +162,10 @@ func vfC11New(w *vfC11World) *vfC11Env {
 		ks := vfC10Keyspace(c)
 		e.ta.getKeyspaceName = func() string { return "vfks" }
 		e.ta.getKeyspaceMetadata = func(name string) (*KeyspaceMetadata, error) {
+			if e.gateArmed.CompareAndSwap(true, false) {
+				close(e.parked)
+				<-e.release
+			}
 			if !e.ksOn.Load() || name != "vfks" {
 				return nil, errors.New("vf: keyspace metadata not available")
 			}
@@ -191,6 +202,54 @@ func (e *vfC11Env) apply(op vfC11Op) {
 	default:
 		panic("vfC11 apply: op " + op.Op)
 	}
+}
+
+// overlap makes call a and, while a is parked inside the keyspace-metadata callback (if it gets
+// there), call b; a is released when b has returned or has not returned within a short while (b
+// waiting for a lock that a holds is the expected design).  Returns the panic message of either
+// call ("" if none) and whether a call did not return at all.
+func (e *vfC11Env) overlap(a, b vfC11Op) (pmsg string, stuck bool) {
+	e.parked, e.release = make(chan struct{}), make(chan struct{})
+	var mu sync.Mutex
+	run := func(op vfC11Op, done chan struct{}) {
+		defer close(done)
+		defer func() {
+			if r := recover(); r != nil {
+				mu.Lock()
+				if pmsg == "" {
+					pmsg = fmt.Sprint(r)
+				}
+				mu.Unlock()
+			}
+		}()
+		e.apply(op)
+	}
+	aDone, bDone := make(chan struct{}), make(chan struct{})
+	e.gateArmed.Store(true)
+	go run(a, aDone)
+	select {
+	case <-e.parked:
+	case <-aDone: // a never consulted the keyspace metadata: nothing to overlap with
+	case <-time.After(10 * time.Second):
+		return "first overlapped call neither parked nor returned", true
+	}
+	e.gateArmed.Store(false)
+	go run(b, bDone)
+	select {
+	case <-bDone:
+	case <-time.After(15 * time.Millisecond):
+	}
+	close(e.release)
+	for _, d := range []chan struct{}{aDone, bDone} {
+		select {
+		case <-d:
+		case <-time.After(10 * time.Second):
+			return "overlapped calls did not return", true
+		}
+	}
+	mu.Lock()
+	defer mu.Unlock()
+	return pmsg, false
 }
 
 func (e *vfC11Env) query(q int) ExecutableQuery {
@@ -247,12 +306,22 @@ func vfC11PanicClass(msg, dflt string) string {
 func vfC11Run(c *vfC11Case) (v vfC11Vector) {
 	v = vfC11Vector{ID: c.ID, W: c.W, Hist: c.Hist, Groups: []vfC11Group{}, PClass: "none", Il: []vfC11Il{}}
 	e := vfC11New(&c.W)
-	for i, op := range c.Hist {
+	for i := 0; i < len(c.Hist); i++ {
+		op := c.Hist[i]
 		if op.Op == "pick" {
 			// earlier picks of a longer history: drained, not recorded here
 			for k := 0; k < op.H; k++ {
 				e.drain(e.policy.Pick(e.query(-1)))
 			}
+			continue
+		}
+		if op.Op == "par" && i+2 < len(c.Hist) {
+			msg, stuck := e.overlap(c.Hist[i+1], c.Hist[i+2])
+			if msg != "" || stuck {
+				v.PMsg, v.PClass, v.PAt = msg, vfC11PanicClass(msg, "op"), i+2
+				return v
+			}
+			i += 2
 			continue
 		}
 		func() {
@@ -378,23 +447,46 @@ func TestVfC11Cases(t *testing.T) {
 	defer outf.Close()
 	w := bufio.NewWriterSize(outf, 1<<20)
 	defer w.Flush()
-	enc := json.NewEncoder(w)
 	sc := bufio.NewScanner(in)
 	sc.Buffer(make([]byte, 1<<20), 1<<24)
-	n := 0
+	var cases []*vfC11Case
 	for sc.Scan() {
-		var c vfC11Case
-		if err := json.Unmarshal(sc.Bytes(), &c); err != nil {
+		c := new(vfC11Case)
+		if err := json.Unmarshal(sc.Bytes(), c); err != nil {
 			t.Fatal(err)
 		}
-		if err := enc.Encode(vfC11Run(&c)); err != nil {
-			t.Fatal(err)
-		}
-		n++
+		cases = append(cases, c)
 	}
 	if err := sc.Err(); err != nil {
 		t.Fatal(err)
 	}
+	// cases are independent (fresh objects each): run them on several goroutines, write in order
+	out := make([][]byte, len(cases))
+	var next int64 = -1
+	var wg sync.WaitGroup
+	for g := 0; g < 12; g++ {
+		wg.Add(1)
+		go func() {
+			defer wg.Done()
+			for {
+				i := int(atomic.AddInt64(&next, 1))
+				if i >= len(cases) {
+					return
+				}
+				b, err := json.Marshal(vfC11Run(cases[i]))
+				if err != nil {
+					panic(err)
+				}
+				out[i] = b
+			}
+		}()
+	}
+	wg.Wait()
+	for _, b := range out {
+		w.Write(b)
+		w.WriteByte('\n')
+	}
+	n := len(cases)
 	fmt.Printf("VFSUMMARY {\"executed\": %d}\n", n)
 }
 
@@ -704,4 +796,152 @@ func TestVfC11Concurrent(t *testing.T) {
 		}
 	}
 	fmt.Printf("VFSUMMARY {\"executed\": %d}\n", rounds)
+}
+
+// ---------------------------------------------------------------- picks through the real queryExecutor
+
+// vfC11SpecQuery is vfC11Query with a speculative execution policy; it counts the executions
+// the executor has in flight (borrowForExecution / releaseAfterExecution).
+type vfC11SpecQuery struct {
+	vfC11Query
+	spec SpeculativeExecutionPolicy
+	live int32
+}
+
+func (q *vfC11SpecQuery) borrowForExecution()                                    { atomic.AddInt32(&q.live, 1) }
+func (q *vfC11SpecQuery) releaseAfterExecution()                                 { atomic.AddInt32(&q.live, -1) }
+func (q *vfC11SpecQuery) speculativeExecutionPolicy() SpeculativeExecutionPolicy { return q.spec }
+func (q *vfC11SpecQuery) withContext(context.Context) ExecutableQuery            { return q }
+
+// vfC11Watch hands out the iterator of the wrapped (real) policy and watches how the executor uses
+// it: which hosts the one query was offered, in which order, and whether a call entered NextHost
+// while another call was still inside (HostSelectionPolicy.Pick promises that does not happen).
+// The first call is slow, so that speculative executions start while the main one is inside.
+type vfC11Watch struct {
+	HostSelectionPolicy
+	idx      map[*HostInfo]int
+	inside   int32
+	overlaps int32
+	calls    int32
+	overlap  chan struct{}
+	once     sync.Once
+	mu       sync.Mutex
+	offered  []int
+}
+
+func (p *vfC11Watch) Pick(q ExecutableQuery) NextHost {
+	next := p.HostSelectionPolicy.Pick(q)
+	return func() SelectedHost {
+		if atomic.AddInt32(&p.inside, 1) > 1 {
+			atomic.AddInt32(&p.overlaps, 1)
+			p.once.Do(func() { close(p.overlap) })
+		}
+		defer atomic.AddInt32(&p.inside, -1)
+		if atomic.AddInt32(&p.calls, 1) == 1 {
+			select {
+			case <-p.overlap:
+			case <-time.After(40 * time.Millisecond):
+			}
+		}
+		h := next()
+		if h != nil {
+			id := 0
+			if info := h.Info(); info != nil {
+				id = p.idx[info]
+			}
+			p.mu.Lock()
+			p.offered = append(p.offered, id)
+			p.mu.Unlock()
+		}
+		return h
+	}
+}
+
+// TestVfC11Executor: the hosts ONE query is offered when it runs through the real queryExecutor with
+// SimpleSpeculativeExecution: no host has a connection pool, so every execution (main and
+// speculative) walks the shared iterator on; the query as a whole must be offered what a single
+// iterator offers.  Vectors are judged by TLC like every other pick.
+func TestVfC11Executor(t *testing.T) {
+	outp := vfC10Env(t, "VF_RESULTS")
+	seed, _ := strconv.ParseInt(os.Getenv("VF_SEED"), 10, 64)
+	count, _ := strconv.Atoi(os.Getenv("VF_COUNT"))
+	if count == 0 {
+		count = 40
+	}
+	rnd := rand.New(rand.NewSource(seed*32452843 + 3))
+	outf, err := os.Create(outp)
+	if err != nil {
+		t.Fatal(err)
+	}
+	defer outf.Close()
+	enc := json.NewEncoder(outf)
+	for id := 1; id <= count; id++ {
+		w := vfC11RandomWorld(rnd, 6, 3)
+		w.Pol = []string{"rr", "dc", "rack"}[id%3]
+		w.Ta = id%5 != 0
+		w.Shuffle = w.Ta && id%4 == 1
+		w.Nonlocal = w.Ta && id%2 == 0
+		ks := vfC11Keyspaces[[]int{0, 1, 2, 3, 4, 5}[id%6]]
+		w.Strat, w.Rfdc, w.Rfn = ks.strat, ks.dcs, ks.rfs
+		n := len(w.Dc)
+		hist := []vfC11Op{{"setpart", 0}}
+		for _, h := range rnd.Perm(n) {
+			hist = append(hist, vfC11Op{"add", h + 1})
+		}
+		hist = append(hist, vfC11Op{"ks", 0})
+		if n > 1 && rnd.Intn(2) == 0 {
+			hist = append(hist, vfC11Op{[]string{"down", "sdown"}[rnd.Intn(2)], 1 + rnd.Intn(n)})
+		}
+		q := -1
+		if rnd.Intn(5) != 0 {
+			q = rnd.Intn(1006)
+		}
+		v := vfC11Vector{ID: id, W: w, Hist: hist, Groups: []vfC11Group{}, PClass: "none", Il: []vfC11Il{}}
+		e := vfC11New(&w)
+		for _, op := range hist {
+			e.apply(op)
+		}
+		watch := &vfC11Watch{HostSelectionPolicy: e.policy, idx: e.idx, overlap: make(chan struct{})}
+		exec := &queryExecutor{pool: &policyConnPool{hostConnPools: map[string]*hostConnPool{}}, policy: watch}
+		qry := &vfC11SpecQuery{spec: &SimpleSpeculativeExecution{NumAttempts: 1 + id%2, TimeoutDelay: 2 * time.Millisecond}}
+		if q >= 0 {
+			qry.key = []byte(vfC10Tok("OrderedPartitioner", q))
+		}
+		realrep := e.realReplicas(q)
+		done := make(chan string, 1)
+		go func() {
+			defer func() {
+				if r := recover(); r != nil {
+					done <- fmt.Sprint(r)
+				}
+			}()
+			iter, _ := exec.executeQuery(qry)
+			if iter == nil || iter.err != ErrNoConnections {
+				done <- fmt.Sprintf("unexpected result %+v", iter)
+				return
+			}
+			done <- ""
+		}()
+		select {
+		case msg := <-done:
+			if msg != "" {
+				v.PClass, v.PMsg, v.PGrp = "pick", msg, 1
+			}
+		case <-time.After(20 * time.Second):
+			v.PClass, v.PMsg, v.PGrp = "pick", "executeQuery did not return within 20s", 1
+		}
+		// executions that lost the race finish their walk on their own
+		for deadline := time.Now().Add(5 * time.Second); atomic.LoadInt32(&qry.live) != 0 && time.Now().Before(deadline); {
+			time.Sleep(time.Millisecond)
+		}
+		watch.mu.Lock()
+		offered := append([]int{}, watch.offered...)
+		watch.mu.Unlock()
+		v.Groups = []vfC11Group{{Q: q, K: 1, Picks: [][]int{offered}, Capped: []bool{atomic.LoadInt32(&qry.live) != 0}, Realrep: realrep}}
+		v.Xov = int(atomic.LoadInt32(&watch.overlaps))
+		if err := enc.Encode(v); err != nil {
+			t.Fatal(err)
+		}
+	}
+	fmt.Printf("VFSUMMARY {\"executed\": %d}\n", count)
 }
